@@ -106,7 +106,7 @@ class Inherit(TypedExpression):
                     comment
                     for comment in outer_comments
                     if inherited_attrs.end_byte
-                    < comment.start_byte
+                    <= comment.start_byte
                     < semicolon_node.start_byte
                 ]
 
